@@ -202,7 +202,10 @@ struct ExecState {
     use_sleep: bool,
     abort: Option<Abort>,
     locks: HashMap<usize, LockState>,
-    last_failed_cas: Vec<Option<(usize, u64)>>,
+    /// (cell, expected, value the failed compare-exchange returned)
+    last_failed_cas: Vec<Option<(usize, u64, u64)>>,
+    /// consecutive stutter steps taken because nothing else could run
+    forced_stutter: usize,
     calls: Vec<Call>,
     open_call: Vec<Option<usize>>,
     cur_call_name: Vec<Option<String>>,
@@ -240,6 +243,7 @@ impl Exec {
                 abort: None,
                 locks: HashMap::new(),
                 last_failed_cas: vec![None; n],
+                forced_stutter: 0,
                 calls: vec![],
                 open_call: vec![None; n],
                 cur_call_name: vec![None; n],
@@ -260,8 +264,10 @@ impl Exec {
             PKind::Sync(OpKind::RwRead) => st.locks.get(&p.addr).map(|l| l.writer.is_none()).unwrap_or(true),
             PKind::Sync(OpKind::RwWrite) => st.locks.get(&p.addr).map(|l| l.writer.is_none() && l.readers == 0).unwrap_or(true),
             PKind::Sync(OpKind::CmpXchg { .. }) => match st.last_failed_cas[t] {
-                // a pure spin iteration: blocked until the cell holds the expected value
-                Some((a, e)) if a == p.addr && e == p.expected => (p.peek)(p.addr) == p.expected,
+                // The same compare-exchange again, right after it really failed, while the cell still holds the value
+                // that made it fail: it would fail identically (a stutter step), so the thread waits for the cell to
+                // change. A spurious failure (returned value == expected) or a cell that has changed since does not wait.
+                Some((a, e, actual)) if a == p.addr && e == p.expected && actual != e => (p.peek)(p.addr) != actual,
                 _ => true,
             },
             _ => true,
@@ -295,6 +301,19 @@ impl Exec {
                     }
                 }
             }
+        }
+        if enabled.is_empty() && st.finished < n {
+            // Nothing can run but a thread waits under the stutter rule: the rule assumes an unbounded retry loop, which
+            // a bounded one (try three times, then give up) is not. Let the lowest such thread take its failing step,
+            // without branching; a loop that really never ends reaches the step horizon instead.
+            if let Some(t) = (0..n).find(|&t| matches!(pend[t], Some(p) if matches!(p.kind, PKind::Sync(OpKind::CmpXchg { .. })))) {
+                st.forced_stutter += 1;
+                if st.forced_stutter <= 256 {
+                    enabled.push(t);
+                }
+            }
+        } else {
+            st.forced_stutter = 0;
         }
         if enabled.is_empty() {
             if st.finished == n {
@@ -449,8 +468,8 @@ impl SyncHook for ThreadHook {
         st.last_failed_cas[me] = None;
         match op.kind {
             OpKind::CmpXchg { .. } => {
-                if let Outcome::CasFail(_) = out {
-                    st.last_failed_cas[me] = Some((op.addr, op.expected));
+                if let Outcome::CasFail(actual) = out {
+                    st.last_failed_cas[me] = Some((op.addr, op.expected, *actual));
                 }
             }
             OpKind::MutexLock | OpKind::RwWrite => {
